@@ -8,7 +8,13 @@ TABLES = {
     "t": ('CREATE TABLE "t" ("id" INTEGER PRIMARY KEY, "a", "b", "c" TEXT, "d" REAL)', ["id", "a", "b", "c", "d"]),
     "u": ('CREATE TABLE "u" ("id" INTEGER PRIMARY KEY, "x", "y", "z")', ["id", "x", "y", "z"]),
     "k": ('CREATE TABLE "k" ("a" UNIQUE, "b", "c")', ["a", "b", "c"]),
+    # numeric table for the arithmetic grammar: rows of small, pairwise different, non-commuting primes, so that the two
+    # readings of every (outer operator, side, inner operator) triple differ in value on some row
+    "n": ('CREATE TABLE "n" ("id" INTEGER PRIMARY KEY, "p", "q", "r", "w")', ["id", "p", "q", "r", "w"]),
+    # shares the column names id / a with t: an unqualified correlated reference binds to the wrong table
+    "s": ('CREATE TABLE "s" ("id" INTEGER PRIMARY KEY, "tid", "x", "a")', ["id", "tid", "x", "a"]),
 }
+N_ROWS = [(1, 7, 3, 2, 0), (2, 11, 5, 3, 1), (3, 13, 2, 7, 5), (4, 5, 11, 3, 2), (5, 17, 13, 19, 3), (6, 23, 29, 31, 4)]
 STR_POOL = ["abc", "x", "it's", "", "2020-01-01", "é✓", "a,b),(c", "--c", "/*x*/", "l1\nl2", "back\\slash", 'say "hi"', "%x_", " "]
 INT_POOL = [0, 1, 2, 3, 7, 10, -1, -5, 42, 10 ** 12]
 FLOAT_POOL = [1.5, -2.25, 0.1, 1e20, 3.0]
@@ -32,7 +38,10 @@ def seed_rows(seed):
     u = [(i + 1, r.choice([1, 2, 3, 10]), val(), val()) for i in range(r.choice([3, 4, 6]))]
     u.append((len(u) + 1,) + u[0][1:])
     k = [(a, val(), val()) for a in r.sample([1, 2, 3, "abc", "x", 7], 4)] + [(None, 1, None), (None, 1, None)]
-    return {"t": t, "u": u, "k": k}
+    nt = len(t)
+    sr = [(i + 1, r.choice([1, 2, 3, nt, nt + 3]), r.choice([-1, 0, 1, 2, 5]), r.choice([1, 2, 3, None])) for i in range(r.choice([4, 5, 7]))]
+    sr.append((len(sr) + 1, 2, 5, 2))
+    return {"t": t, "u": u, "k": k, "n": list(N_ROWS), "s": sr}
 
 
 def fresh_db(seed):
@@ -87,7 +96,8 @@ def state_equal(sa, sb, tol):
 
 def has_expression(spec):
     return (spec["kind"] == "update" and any(v[0] == "t" for _, v in spec["sets"])) or \
-           (spec["kind"] == "insert-select" and any(t[0] != "field" for t in spec["sels"]))
+           (spec["kind"] == "insert-select" and any(t[0] != "field" for t in spec["sels"])) or \
+           (spec["kind"] == "insert" and any(v[0] == "t" for row in spec["rows"] for v in row))
 
 
 # ---------------------------------------------------------------------------------------------
@@ -105,7 +115,9 @@ def explicit(t, params):
     k = t[0]
     if k == "field":
         if t[2] is not None and (t[2][1] or t[2][2]):
-            raise NotJudged("qualified field")
+            raise NotJudged("schema / alias")
+        if t[2] is not None:       # bound to a table: the reference always says which one
+            return '"%s"."%s"' % (t[2][0].replace('"', '""'), t[1].replace('"', '""'))
         return '"%s"' % t[1].replace('"', '""')
     if k == "vali":
         params.append(int(t[1]))
@@ -160,7 +172,7 @@ def explicit(t, params):
         b = explicit(t[2], params)
         c = explicit(t[3], params)
         return "(%s BETWEEN %s AND %s)" % (a, b, c)
-    if k == "func" and t[1] in ("ABS", "COALESCE", "LENGTH", "UPPER") and t[2]:
+    if k == "func" and t[1] in ("ABS", "COALESCE", "LENGTH", "UPPER", "MAX", "MIN", "COUNT") and t[2]:
         return "%s(%s)" % (t[1], ", ".join(explicit(x, params) for x in t[2]))
     raise NotJudged(k)
 
@@ -188,6 +200,43 @@ def pyvalue(v):
     raise NotJudged("term value")
 
 
+def explicit_sub(sub, params):
+    """{"from": table, "selects": [term], "where": term|None} -> explicit SELECT"""
+    sql = "SELECT %s FROM %s" % (", ".join("(%s)" % explicit(x, params) for x in sub["selects"]), qid(sub["from"]))
+    if sub.get("where") is not None:
+        sql += " WHERE " + explicit(sub["where"], params)
+    return sql
+
+
+def explicit_item(it, params):
+    """criterion items that may hold sub-queries: ["t", term] | ["in", term, sub, neg] | ["exists", sub, neg] |
+    ["cmp", op, term, sub] | ["cplx", "and"/"or", item, item]"""
+    k = it[0]
+    if k == "t":
+        return explicit(it[1], params)
+    if k == "in":
+        a = explicit(it[1], params)
+        return "(%s %sIN (%s))" % (a, "NOT " if it[3] else "", explicit_sub(it[2], params))
+    if k == "exists":
+        return "(%sEXISTS (%s))" % ("NOT " if it[2] else "", explicit_sub(it[1], params))
+    if k == "cmp":
+        a = explicit(it[2], params)
+        return "(%s %s (%s))" % (a, CMPS[it[1]], explicit_sub(it[3], params))
+    if k == "cplx":
+        a = explicit_item(it[2], params)
+        b = explicit_item(it[3], params)
+        return "(%s %s %s)" % (a, it[1].upper(), b)
+    raise NotJudged(k)
+
+
+def where_sql(spec, params):
+    if spec.get("where_item") is not None:
+        return explicit_item(spec["where_item"], params)
+    if spec.get("where") is not None:
+        return explicit(spec["where"], params)
+    return None
+
+
 def qid(n):
     return '"%s"' % n.replace('"', '""')
 
@@ -204,8 +253,14 @@ def reference(spec):
         if kind == "insert":
             groups = []
             for row in spec["rows"]:
-                groups.append("(%s)" % ", ".join("?" for _ in row))
-                params.extend(pyvalue(v) for v in row)
+                cells = []
+                for v in row:
+                    if v[0] == "t":
+                        cells.append(explicit(v[1], params))
+                    else:
+                        params.append(pyvalue(v))
+                        cells.append("?")
+                groups.append("(%s)" % ", ".join(cells))
             return head + " VALUES " + ", ".join(groups), params
         sels = ", ".join("(%s)" % explicit(s, params) for s in spec["sels"])
         sql = "%s SELECT %s FROM %s" % (head, sels, ", ".join(qid(f) for f in spec["from"]))
@@ -223,7 +278,7 @@ def reference(spec):
                 params.append(pyvalue(v))
                 sets.append("%s = ?" % qid(col))
         sql = "UPDATE %s SET %s" % (qid(spec["table"]), ", ".join(sets))
-        w = None if spec.get("where") is None else explicit(spec["where"], params)
+        w = where_sql(spec, params)
         if spec.get("limit") is not None:
             sql += " WHERE rowid IN (SELECT rowid FROM %s%s ORDER BY rowid LIMIT %d)" % (
                 qid(spec["table"]), "" if w is None else " WHERE " + w, int(spec["limit"]))
@@ -232,7 +287,7 @@ def reference(spec):
         return sql, params
     if kind == "delete":
         sql = "DELETE FROM %s" % qid(spec["table"])
-        w = None if spec.get("where") is None else explicit(spec["where"], params)
+        w = where_sql(spec, params)
         if spec.get("limit") is not None:
             sql += " WHERE rowid IN (SELECT rowid FROM %s%s ORDER BY rowid LIMIT %d)" % (
                 qid(spec["table"]), "" if w is None else " WHERE " + w, int(spec["limit"]))
